@@ -120,11 +120,12 @@ func ruleC03_2(c *Ctx) {
 			what+" happens for a fragment that may already be Done (its request was completed by a sibling's error or by a timeout and may have been recycled): a late reply is counted/merged into, or redirects, a request that no longer owns it", withGuards(gs))
 	}
 	movedOrAsk := p.Global(pkgCodec, "MovedOrAsk")
-	for _, b := range sread.Blocks {
-		for _, in := range b.Instrs {
+	// (sread's own instructions and, under their call sites, those of its helpers: `return f, c.settle(f)`)
+	p.virtualInstrs(sread, func(in ssa.Instruction) {
+		{
 			switch x := in.(type) {
 			case *ssa.Return:
-				if len(x.Results) == 2 {
+				if len(x.Results) == 2 && in.Parent() == sread {
 					if ld, ok := results(x)[1].(*ssa.UnOp); ok && ld.X == ssa.Value(movedOrAsk) {
 						report("the redirect return (→ OnMoved writes f.Peer.Fd2Slot and re-sends)", in)
 					}
@@ -141,7 +142,7 @@ func ruleC03_2(c *Ctx) {
 				// wrapping them, the error completion): accessors and logging only read
 				callee := x.Call.StaticCallee()
 				if callee == nil || !p.ownFunc(callee) || callee.Blocks == nil || skipPkg(callee) || callee == sdec || p.isPure(callee, 0) {
-					continue
+					return
 				}
 				for _, a := range x.Call.Args {
 					isReq := false
@@ -155,7 +156,7 @@ func ruleC03_2(c *Ctx) {
 				}
 			}
 		}
-	}
+	})
 	if n < 5 {
 		c.undecided("conn.sread: uses of the fragment's request", p.pos(sread.Pos()), fmt.Sprintf("only %d uses of f.Peer found (expected the redirect return, the counter increment, four merge calls and the error completion)", n))
 	}
